@@ -18,7 +18,8 @@ The model here is the code as it runs in that situation:
 * `execG`: one call of `Model/GraphSession.lean` with the search given as a parameter (`exec` = `execG routeOn`,
   `execSh` = `execG routeOnPD`);
 * `Fam`: the common flag store + the `Network` objects (members); `FamOp`: `Network()` on the family's node pool, a call on
-  a member, `sub_network` whose result becomes a new member.
+  a member, `sub_network` whose result becomes a new member, `edge.weight = w` on an `Edge` object (shared by a network and
+  its extracts).
 
 `Lemmas/GraphShared.lean` proves that sharing is unobservable: every answer is the one the member would give with `Node`
 objects of its own (`execFamU`), hence the pure function of its current graph. Core Lean only. -/
@@ -115,10 +116,17 @@ structure Fam (W : Type) where
 
 def Fam.new (n : Nat) : Fam W := { n := n, flags := St.clean, nets := [] }
 
+/-- `edge.weight = w` on the `Edge` object with this id, as one network sees it: the weight is an attribute of the `Edge`
+object, read by `run_routing_forward` at every relaxation (`pere.poids + e.weight`), so the next search uses the new value -/
+def setW (eid : Nat) (w : W) (σ : Sess W) : Sess W :=
+  { σ with net := { σ.net with edges := σ.net.edges.map (fun e => if e.id = eid then { e with w := w } else e) } }
+
 inductive FamOp (W : Type) where
   | create                                          -- `Network()`, later filled with nodes of the pool
   | on (k : Nat) (op : Op W)                        -- a call on the `k`-th network
   | extract (k : Nat) (s : Nat) (cut : Option W)    -- `nets.append(nets[k].sub_network(s, cut))`
+  | setWeight (eid : Nat) (w : W)                   -- `edge.weight = w`: an extract holds its parent's `Edge` objects, so every
+                                                    -- network holding that edge sees the new weight (edge ids identify the objects)
 
 /-- one step of a program over a family that shares its `Node` objects -/
 def execFam (F : Fam W) : FamOp W → Fam W × Out W
@@ -138,6 +146,8 @@ def execFam (F : Fam W) : FamOp W → Fam W × Out W
         let sub := subSess σ (subEdges σ.net r.1)
         ({ F with flags := r.1, nets := F.nets ++ [sub] }, .subnet sub.order (sub.net.edges.map (·.id)))
       else (F, .err)
+  | .setWeight eid w =>
+    if w < 0 then (F, .err) else ({ F with nets := F.nets.map (setW eid w) }, .unit)
 
 def runFam (F : Fam W) : List (FamOp W) → List (Out W)
   | [] => []
@@ -164,6 +174,8 @@ def execFamU (n : Nat) (nets : List (Sess W)) : FamOp W → List (Sess W) × Out
         let sub := subSess σ (subEdges σ.net r.1)
         (nets.set k { σ with flags := r.1 } ++ [sub], .subnet sub.order (sub.net.edges.map (·.id)))
       else (nets, .err)
+  | .setWeight eid w =>
+    if w < 0 then (nets, .err) else (nets.map (setW eid w), .unit)
 
 def runFamU (n : Nat) (nets : List (Sess W)) : List (FamOp W) → List (Out W)
   | [] => []
